@@ -19,6 +19,7 @@ type shape struct {
 	Tmpl   string `json:"-"`     // the same with "@" (stable across tiers; hashed into keys)
 	N      int    `json:"-"`
 	Solo   bool   `json:"solo"`  // needs a file of its own (package initialisation is part of the shape)
+	Hdr    string `json:"hdr,omitempty"` // text in front of the file's declarations: further files ("//c14:file" sections) and imports; identical for all shapes of a family
 }
 
 type shapeSet struct {
@@ -53,6 +54,7 @@ func allShapes(thorough bool) []shape {
 	shapesScope(ss, thorough)
 	shapesDegenerate(ss, thorough)
 	shapesControl(ss, thorough)
+	allShapes2(ss, thorough) // shapes2_test.go
 	return ss.list
 }
 
